@@ -74,7 +74,7 @@ class _PathDefsMap:
         return local in self.last or local in self.base.defs
 
 
-def table(F, syms, actions, record_returns=True, entry=0, max_nodes=400000, path_sensitive=False,
+def table(F, syms, actions, record_returns=True, entry=0, max_nodes=120000, path_sensitive=False,
           store_fields=()):
     """{assignment (tuple of labels, in syms order): frozenset of action tuples}.
     An action tuple ends with ('ret', <value>) entries for stores into the return place and with
@@ -84,6 +84,7 @@ def table(F, syms, actions, record_returns=True, entry=0, max_nodes=400000, path
     c = F.cfg()
     cache = {}
     out = {}
+    headers = set(c.loops().keys())
     doms = [list(s.domain.items()) for s in syms]
     # definition sites per block (for path-sensitive rendering)
     bdefs = {}
@@ -99,17 +100,25 @@ def table(F, syms, actions, record_returns=True, entry=0, max_nodes=400000, path
         labels = tuple(l for _, l in combo)
         results = set()
         seen = set()
-        stack = [(entry, (), ())]
+        stack = [(entry, (), (), ())]
         nodes = 0
         while stack:
-            bb, acts, pd = stack.pop()
+            bb, acts, pd, hist = stack.pop()
+            if bb in headers:
+                hd = dict(hist)
+                hd[bb] = hd.get(bb, 0) + 1
+                if hd[bb] > 2:
+                    # third visit of a loop header on one path: cut (the iteration pattern is already recorded)
+                    results.add(acts + (("loop-cut",),))
+                    continue
+                hist = tuple(sorted(hd.items()))
             nodes += 1
             if nodes > max_nodes:
                 results.add((("explosion",),))
                 break
-            if (bb, acts, pd) in seen:
+            if (bb, acts, pd, hist) in seen:
                 continue
-            seen.add((bb, acts, pd))
+            seen.add((bb, acts, pd, hist))
             b = F.blocks[bb]
             t = b["term"]
             cur = acts
@@ -165,7 +174,7 @@ def table(F, syms, actions, record_returns=True, entry=0, max_nodes=400000, path
                         known = 0 if ev[2][1] else 1
                     if known is not None:
                         explicit = dict((v, tb) for v, tb in t["targets"])
-                        stack.append((explicit.get(known, t["otherwise"]), cur, pd))
+                        stack.append((explicit.get(known, t["otherwise"]), cur, pd, hist))
                         continue
                     ss = _switch_symbol(F, bb, syms, pdu, {})
                 else:
@@ -177,10 +186,10 @@ def table(F, syms, actions, record_returns=True, entry=0, max_nodes=400000, path
                         val = 0 if val else 1
                     explicit = dict((v, tb) for v, tb in t["targets"])
                     tgt = explicit[val] if val in explicit else t["otherwise"]
-                    stack.append((tgt, cur, pd))
+                    stack.append((tgt, cur, pd, hist))
                     continue
             for x in succ:
-                stack.append((x, cur, pd))
+                stack.append((x, cur, pd, hist))
         out[labels] = frozenset(results)
     return out
 
